@@ -36,6 +36,8 @@ def run(rep, tier):
     winding(rep, F)
     winding_table(rep, F)
     least_index_table(rep, F)
+    from . import gt_tables
+    gt_tables.run(rep, F, "R5.8", select={"Line::determinant", "Rect::width", "Rect::height"})
 
 
 def single(ex, fn):
